@@ -31,9 +31,10 @@ EventsOK(ev) == \A i \in 1..Len(ev) : ev[i][2] >= 0 /\ ev[i][2] <= ev[i][1]
 \* ---------------------------------------------------------------- decoder state
 \* ctv  corner -> vertex (INV = unset)      opp  corner -> opposite corner       vc  vertex -> left-most corner (sequence, grows)
 \* stack active corners   faces  faces created   sid  decoder symbol id   act  <<decoder symbol id, corner>> pairs, later entries win
+\* nh  vertices known NOT to lie on a hole (is_vert_hole_ = false: reached by C, corners of an interior start face)
 \* inval  vertices isolated by S (in order)   ev  remaining events (consumed from the back)   out  "run" | "rej:.." | "ub:.."
 D0(nf, ev) == [ctv |-> [c \in 0..(3*nf - 1) |-> INV], opp |-> [c \in 0..(3*nf - 1) |-> INV], vc |-> <<>>, stack |-> <<>>,
-               faces |-> 0, sid |-> 0, act |-> <<>>, inval |-> <<>>, ev |-> ev, out |-> "run"]
+               faces |-> 0, sid |-> 0, act |-> <<>>, inval |-> <<>>, ev |-> ev, out |-> "run", nh |-> {}]
 Stop(d, w) == [d EXCEPT !.out = w]
 Opp(d, c) == IF c = INV THEN INV ELSE d.opp[c]
 Vtx(d, c) == IF c = INV THEN INV ELSE d.ctv[c]
@@ -80,6 +81,7 @@ DecSym(d, s, nsym, maxv) ==
      Adv([d EXCEPT !.opp = SetO(SetO(@, a, c + 1), b, c + 2),
                    !.ctv = [@ EXCEPT ![c] = x, ![c + 1] = vbn, ![c + 2] = vap],
                    !.vc = SetLM(@, vap, c + 2),
+                   !.nh = @ \cup {x},
                    !.stack = SetTop(@, c)])
   ELSE IF s = "R" \/ s = "L" THEN
      IF d.stack = <<>> THEN Stop(d, "rej:RL-empty") ELSE
@@ -141,6 +143,7 @@ StartFaces(d, bits, nf) ==
   IF vp = INV THEN Stop(d, "ub:F-is_vert_hole(invalid vertex)") ELSE
   StartFaces([d EXCEPT !.opp = SetO(SetO(SetO(@, k, corner), k + 1, b), k + 2, cc),
                        !.ctv = [@ EXCEPT ![k] = vx, ![k + 1] = vp, ![k + 2] = vn],
+                       !.nh = @ \cup {vx, vp, vn},
                        !.faces = @ + 1, !.stack = st], rest, nf)
 
 \* isolated-vertex compaction: the last valid vertex takes the id of every vertex isolated by an S
@@ -167,7 +170,7 @@ Compact(d, inv, nvs) ==
   IF \E i \in 1..Len(cs) : d.ctv[cs[i]] # src THEN [d |-> Stop(d, "rej:compact-wrong-vertex"), nvs |-> n2] ELSE
   LET m == [c \in DOMAIN d.ctv |-> IF \E i \in 1..Len(cs) : cs[i] = c THEN iv ELSE d.ctv[c]]
       vc1 == [[d.vc EXCEPT ![iv + 1] = d.vc[src + 1]] EXCEPT ![src + 1] = INV] IN
-  Compact([d EXCEPT !.ctv = m, !.vc = vc1], Tail(inv), n2 - 1)
+  Compact([d EXCEPT !.ctv = m, !.vc = vc1, !.nh = (IF src \in @ THEN @ \cup {iv} ELSE @ \ {iv}) \cup {src}], Tail(inv), n2 - 1)
 
 \* ---------------------------------------------------------------- the order in which the attribute decoder visits the vertices
 \* MeshTraversalSequencer + DepthFirstTraverser (traversal method 0) over the decoded corner table: from corner 3f of every face f in turn, a depth
@@ -351,6 +354,101 @@ CmPos(r, nf, pat, lo, hi) ==
   ELSE [nfl |-> m.cur, err |-> "",
         pos |-> [pt \in 1..r.np |-> LET e == EntryOf(t.order, pt - 1) IN IF e < 0 THEN <<>> ELSE m.vals[e + 1]]]
 
+\* ---------------------------------------------------------------- attribute seams: a second attribute with its own connectivity
+\* After the connectivity, face by face and corner by corner (3f, 3f+1, 3f+2): an edge without opposite face is a seam by definition; an edge whose
+\* opposite face has a smaller id was decided there; every other edge reads one bit.  A seam edge cuts the attribute's corner table
+\* (MeshAttributeCornerTable: Opposite across a seam is invalid); RecomputeVertices renumbers the attribute's vertices fan by fan;
+\* AssignPointsToCorners gives every corner its point: one per piece of a vertex' fan between seams.
+SeamCorners(d, nf, bits) ==       \* [sc |-> set of seam corners, used |-> bits consumed]
+  LET RECURSIVE Go(_, _, _)
+      Go(c, k, acc) == IF c = 3 * nf THEN [sc |-> acc, used |-> k]
+                       ELSE LET o == Opp(d, c) IN
+                            IF o = INV THEN Go(c + 1, k, acc \cup {c})
+                            ELSE IF o \div 3 < c \div 3 THEN Go(c + 1, k, acc)
+                            ELSE Go(c + 1, k + 1, IF k + 1 <= Len(bits) /\ bits[k + 1] = 1 THEN acc \cup {c} ELSE acc)
+  IN Go(0, 0, {})
+EdgeSeams(d, sc) == sc \cup {Opp(d, c) : c \in {x \in sc : Opp(d, x) # INV}}
+VertSeams(d, es) == {Vtx(d, Nx(c)) : c \in es} \cup {Vtx(d, Pv(c)) : c \in es}
+AOpp(d, es, c) == IF c = INV \/ c \in es THEN INV ELSE Opp(d, c)
+ASwingL(d, es, c) == Nx(AOpp(d, es, Nx(c)))
+ASwingR(d, es, c) == Pv(AOpp(d, es, Pv(c)))
+\* RecomputeVertices(nullptr, nullptr): am corner -> attribute vertex (INV unset), alm attribute vertex -> its first corner
+RECURSIVE ALeft(_, _, _, _, _, _), ARight(_, _, _, _, _, _, _, _), ARecompute(_, _, _, _, _, _)
+ALeft(d, es, c, first, act, fuel) ==            \* walk left (seam-aware) to the first corner of the fan piece; "loop" when it comes back to c
+  IF act = INV THEN [ok |-> TRUE, first |-> first]
+  ELSE IF fuel = 0 THEN [ok |-> FALSE, first |-> first]
+  ELSE LET nx == ASwingL(d, es, act) IN IF nx = c THEN [ok |-> FALSE, first |-> act] ELSE ALeft(d, es, c, act, nx, fuel - 1)
+ARight(d, es, first, act, id, am, alm, fuel) == \* walk right over the POSITION table from `first`; a seam edge on the way starts a new attribute vertex
+  IF act = INV \/ act = first THEN [am |-> am, alm |-> alm, err |-> ""]
+  ELSE IF fuel = 0 THEN [am |-> am, alm |-> alm, err |-> "ub:attribute-fan-does-not-end"]
+  ELSE LET cut == Nx(act) \in es
+           id1 == IF cut THEN Len(alm) ELSE id
+           alm1 == IF cut THEN Append(alm, act) ELSE alm
+       IN ARight(d, es, first, SwingR(d, act), id1, [am EXCEPT ![act] = id1], alm1, fuel - 1)
+ARecompute(d, es, vs, v, am, alm) ==
+  IF v = Len(d.vc) THEN [am |-> am, alm |-> alm, err |-> ""] ELSE
+  LET c == d.vc[v + 1] IN
+  IF c = INV THEN ARecompute(d, es, vs, v + 1, am, alm) ELSE
+  LET l == IF v \in vs THEN ALeft(d, es, c, c, ASwingL(d, es, c), 3 * Len(d.vc) + 12) ELSE [ok |-> TRUE, first |-> c] IN
+  IF ~l.ok THEN [am |-> am, alm |-> alm, err |-> "rej:attribute-fan-closed"] ELSE
+  LET id == Len(alm)
+      r == ARight(d, es, l.first, SwingR(d, l.first), id, [am EXCEPT ![l.first] = id], Append(alm, l.first), 3 * Len(d.vc) + 12)
+  IN IF r.err # "" THEN r ELSE ARecompute(d, es, vs, v + 1, r.am, r.alm)
+\* AssignPointsToCorners with one attribute: cp corner -> point, np
+RECURSIVE FindFirst(_, _, _, _, _, _), Spread(_, _, _, _, _, _, _, _), Assign(_, _, _, _, _, _)
+FindFirst(d, am, c, act, vid, fuel) ==          \* a vertex not on a hole, on a seam: the first corner (swinging right from c) whose attribute vertex differs
+  IF act = c THEN [ok |-> TRUE, first |-> c]
+  ELSE IF act = INV THEN [ok |-> FALSE, first |-> c]
+  ELSE IF fuel = 0 THEN [ok |-> FALSE, first |-> INV]
+  ELSE IF am[act] # vid THEN [ok |-> TRUE, first |-> act] ELSE FindFirst(d, am, c, SwingR(d, act), vid, fuel - 1)
+Spread(d, am, first, prev, c, cp, np, fuel) ==
+  IF c = INV \/ c = first THEN [cp |-> cp, np |-> np, err |-> ""]
+  ELSE IF fuel = 0 THEN [cp |-> cp, np |-> np, err |-> "ub:point-fan-does-not-end"]
+  ELSE IF am[c] # am[prev] THEN Spread(d, am, first, c, SwingR(d, c), [cp EXCEPT ![c] = np], np + 1, fuel - 1)
+  ELSE Spread(d, am, first, c, SwingR(d, c), [cp EXCEPT ![c] = cp[prev]], np, fuel - 1)
+Assign(d, vs, am, v, cp, np) ==
+  IF v = Len(d.vc) THEN [cp |-> cp, np |-> np, err |-> ""] ELSE
+  LET c == d.vc[v + 1] IN
+  IF c = INV THEN Assign(d, vs, am, v + 1, cp, np) ELSE
+  LET ff == IF v \notin d.nh \/ v \notin vs THEN [ok |-> TRUE, first |-> c]
+            ELSE FindFirst(d, am, c, SwingR(d, c), am[c], 3 * Len(d.vc) + 12) IN
+  IF ~ff.ok THEN [cp |-> cp, np |-> np, err |-> IF ff.first = INV THEN "ub:point-fan-does-not-end" ELSE "rej:assign-open-fan"] ELSE
+  LET sp == Spread(d, am, ff.first, ff.first, SwingR(d, ff.first), [cp EXCEPT ![ff.first] = np], np + 1, 3 * Len(d.vc) + 12) IN
+  IF sp.err # "" THEN sp ELSE Assign(d, vs, am, v + 1, sp.cp, sp.np)
+\* everything for one seam pattern.  Result: out, np, faces (points), used (bits consumed), pvidx / avidx (value index per point for the position
+\* attribute -- traversal over the position table -- and for the second attribute -- the same traversal over the attribute's table)
+Seamed(r, nf, bits) ==
+  LET none == [out |-> "none", np |-> 0, faces |-> <<>>, used |-> 0, pe |-> 0, pvidx |-> <<>>, avidx |-> <<>>] IN
+  IF r.out # "acc" THEN none ELSE
+  \* with attribute data the decoder does NOT renumber the vertices isolated by S symbols (remove_invalid_vertices = attribute_data_.empty()):
+  \* the seam layer works on the table as it is before Compact
+  LET d == r.du
+      s0 == SeamCorners(d, nf, bits)
+      es == EdgeSeams(d, s0.sc)
+      vs == VertSeams(d, es)
+      C == 0..(3 * nf - 1)
+      rc == ARecompute(d, es, vs, 0, [c \in C |-> INV], <<>>) IN
+  IF rc.err # "" THEN [none EXCEPT !.out = rc.err, !.used = s0.used] ELSE
+  LET asg == Assign(d, vs, rc.am, 0, [c \in C |-> 0], 0) IN
+  IF asg.err # "" THEN [none EXCEPT !.out = asg.err, !.used = s0.used] ELSE
+  LET tp == Traverse(d, nf)
+      da == [opp |-> [c \in C |-> AOpp(d, es, c)], ctv |-> rc.am, vc |-> rc.alm]
+      ta == Traverse(da, nf)
+      EntryC(t, pred(_)) == LET K == {k \in 1..Len(t.cor) : pred(t.cor[k])} IN IF K = {} THEN -1 ELSE (CHOOSE k \in K : \A j \in K : k <= j) - 1
+  IN IF tp.err # "" \/ ta.err # "" THEN [none EXCEPT !.out = "any:traversal", !.used = s0.used] ELSE
+     [out |-> "acc", np |-> asg.np, faces |-> [c \in 1..(3 * nf) |-> asg.cp[c - 1]], used |-> s0.used, pe |-> Len(tp.order),
+      \* a point holds the value of the vertex its corners belong to: the entry at which that vertex was reported
+      \* UpdatePointToAttributeIndexMapping walks the corners in order and the last one wins: a point holds the entry of the vertex of its LAST corner;
+      \* a vertex the traversal never reported stands for entry 0 (the decoder's map starts as zeros); a point named by no face keeps no value (-1)
+      pvidx |-> [pt \in 1..asg.np |-> IF \E c \in C : asg.cp[c] = pt - 1
+                                       THEN LET c0 == CHOOSE c \in C : asg.cp[c] = pt - 1 /\ \A c2 \in C : asg.cp[c2] = pt - 1 => c2 <= c
+                                                e == EntryC(tp, LAMBDA x : d.ctv[x] = d.ctv[c0]) IN IF e < 0 THEN 0 ELSE e
+                                       ELSE -1],
+      avidx |-> [pt \in 1..asg.np |-> IF \E c \in C : asg.cp[c] = pt - 1
+                                       THEN LET c0 == CHOOSE c \in C : asg.cp[c] = pt - 1 /\ \A c2 \in C : asg.cp[c2] = pt - 1 => c2 <= c
+                                                e == EntryC(ta, LAMBDA x : rc.am[x] = rc.am[c0]) IN IF e < 0 THEN 0 ELSE e
+                                       ELSE -1]]
+
 \* ---------------------------------------------------------------- the whole connectivity decode
 \* syms in DECODER order; ev = <<src, split, edge>> triples ascending in src; sb = start-face bits
 Decode(syms, nv, nf, nss, ev, sb) ==
@@ -364,7 +462,7 @@ Decode(syms, nv, nf, nss, ev, sb) ==
   IF d2.faces # nf THEN [out |-> "rej:face-count", np |-> 0, faces |-> <<>>] ELSE
   LET r == Compact(d2, d2.inval, Len(d2.vc)) IN
   IF r.d.out # "run" THEN [out |-> r.d.out, np |-> 0, faces |-> <<>>]
-  ELSE [out |-> "acc", np |-> r.nvs, faces |-> [c \in 1..(3 * nf) |-> r.d.ctv[c - 1]], d |-> r.d]
+  ELSE [out |-> "acc", np |-> r.nvs, faces |-> [c \in 1..(3 * nf) |-> r.d.ctv[c - 1]], d |-> r.d, du |-> d2]
 
 \* ---------------------------------------------------------------- the valence traversal (MeshEdgebreakerTraversalValenceDecoder)
 \* The symbols are not one string: they sit in 6 context vectors (one per clamped valence 2..7 of the vertex the traversal is about to
@@ -426,7 +524,7 @@ DecodeV(syms, nv, nf, nss, ev, sb) ==
   IF d2.faces # nf THEN [out |-> "rej:face-count", np |-> 0, faces |-> <<>>, ctx |-> ctx] ELSE
   LET r == Compact(d2, d2.inval, Len(d2.vc)) IN
   IF r.d.out # "run" THEN [out |-> r.d.out, np |-> 0, faces |-> <<>>, ctx |-> ctx]
-  ELSE [out |-> "acc", np |-> r.nvs, faces |-> [c \in 1..(3 * nf) |-> r.d.ctv[c - 1]], ctx |-> ctx, d |-> r.d]
+  ELSE [out |-> "acc", np |-> r.nvs, faces |-> [c \in 1..(3 * nf) |-> r.d.ctv[c - 1]], ctx |-> ctx, d |-> r.d, du |-> d2]
 
 \* the attribute order of an accepted connectivity: [trav |-> "" | "rej:.." | "ub:..", vidx |-> value index per point]
 Order(r, nf) == IF r.out # "acc" THEN [trav |-> "", vidx |-> <<>>]
